@@ -373,6 +373,23 @@ func checkC18(c *Check) {
 			}
 		}
 	}
+	// an argument that is itself a command call (its standard output is the one argument)
+	for _, inner := range []struct{ name, out string }{{"word", "inner"}, {"two-words", "in ner"}, {"empty", ""}, {"with-newline", "in\n"}, {"glob", "*"}} {
+		for _, pos := range []string{"sole", "first", "last"} {
+			b := newC18()
+			nested := AppCall{[]AppStage{stage(b, "p_say", hx(inner.out), sl("0"))}}
+			var args []Expr
+			switch pos {
+			case "sole":
+				args = []Expr{nested}
+			case "first":
+				args = []Expr{nested, sl("x")}
+			default:
+				args = []Expr{sl("x"), nested}
+			}
+			add(b.finish(fmt.Sprintf("nested-command-argument/%s/%s", inner.name, pos), ExprStmt{AppCall{[]AppStage{stage(b, "p_rec", args...)}}}, pr(sl("done"))))
+		}
+	}
 	// two captures in a row and capture used in expressions
 	{
 		b := newC18()
